@@ -58,8 +58,10 @@ pub(crate) enum JumpRecordAction {
     /// and the `break` goes to the end of the loop, this is solved by having a jump table (See [`crate::vm::opcode::Opcode::JumpTable`])
     /// at the end of finally (It is constructed in [`ByteCompiler::pop_try_with_finally_control_info()`]).
     HandleFinally {
-        /// Jump table index.
-        index: u32,
+        /// Index of the [`JumpControlInfo`] of the try statement. The jump table index is the
+        /// position the record gets in that info's `jumps`, which is only known when the record
+        /// is transferred to it: records of enclosed try statements arrive later.
+        jump_info_index: u32,
         /// Register for the flag that indicated if the finally block needs to re throw.
         finally_throw_flag: u32,
         /// Register for the index in the jump table.
@@ -116,13 +118,14 @@ impl JumpRecord {
                     }
                 }
                 JumpRecordAction::HandleFinally {
-                    index: value,
+                    jump_info_index,
                     finally_throw_flag,
                     finally_throw_index,
                 } => {
+                    // The `Transfer` that follows pushes this record at the end of `jumps`.
                     // Note: +1 because 0 is reserved for the fallthrough entry of the
                     // jump table emitted in `pop_try_with_finally_control_info`.
-                    let index = value as i32 + 1;
+                    let index = compiler.jump_info[jump_info_index as usize].jumps.len() as i32 + 1;
                     compiler
                         .bytecode
                         .emit_store_false(finally_throw_flag.into());
